@@ -687,4 +687,91 @@ MUTANTS = [
            "    def __len__(self):\n        return len(self._categories)",
            "    def __len__(self):\n        return len(self._name)",
            "R2.one-backing-field"),
+    # ---- one seeded fault per remaining rule ----
+    Mutant("escape-both-quotes-quoted", CIF,
+           "        # If both quote types are present, you cannot use them for escaping\n        return _multiline(value)",
+           "        # If both quote types are present, you cannot use them for escaping\n        return \"'\" + value + \"'\"",
+           "R1.both-quotes-text-field"),
+    Mutant("escape-both-quotes-branch-removed", CIF,
+           "    elif \"'\" in value and '\"' in value:\n        # If both quote types are present, you cannot use them for escaping\n        return _multiline(value)\n",
+           "", "R1.both-quotes-text-field"),
+    Mutant("escape-both-quotes-after-single", CIF,
+           """    elif "'" in value and '"' in value:
+        # If both quote types are present, you cannot use them for escaping
+        return _multiline(value)
+    elif len(value) == 0:
+        return "''"
+    elif "'" in value:
+        return '"' + value + '"'
+    elif '"' in value:
+        return "'" + value + "'"
+""", """    elif len(value) == 0:
+        return "''"
+    elif "'" in value:
+        return '"' + value + '"'
+    elif '"' in value:
+        return "'" + value + "'"
+    elif "'" in value and '"' in value:
+        # If both quote types are present, you cannot use them for escaping
+        return _multiline(value)
+""", "R1.branch-order"),
+    Mutant("escape-newline-after-single", CIF,
+           """    if "\\n" in value:
+        # A value with linebreaks must be represented as multiline value
+        return _multiline(value)
+    elif "'" in value and '"' in value:
+        # If both quote types are present, you cannot use them for escaping
+        return _multiline(value)
+    elif len(value) == 0:
+        return "''"
+    elif "'" in value:
+        return '"' + value + '"'
+    elif '"' in value:
+        return "'" + value + "'"
+""", """    if "'" in value and '"' in value:
+        # If both quote types are present, you cannot use them for escaping
+        return _multiline(value)
+    elif len(value) == 0:
+        return "''"
+    elif "'" in value:
+        return '"' + value + '"'
+    elif '"' in value:
+        return "'" + value + "'"
+    elif "\\n" in value:
+        # A value with linebreaks must be represented as multiline value
+        return _multiline(value)
+""", "R1.branch-order"),
+    Mutant("looped-row-right-aligned", CIF,
+           "                value_lines[i] += array[i].ljust(column_n_chars[j])\n            # Remove trailing justification of last column\n"
+           "            # and potential terminal newlines from multiline values\n            value_lines[i] = value_lines[i].strip()\n",
+           "                value_lines[i] += array[i].rjust(column_n_chars[j])\n",
+           "R1.first-column-at-line-start"),
+    Mutant("as-item-missing-token", CIF,
+           "        elif mask == MaskValue.MISSING:\n            return \"?\"", "        elif mask == MaskValue.MISSING:\n            return \".\"",
+           "R1.mask-tokens", "CIFColumn.as_item"),
+    Mutant("reader-missing-token-not-inferred", CIF,
+           "            mask[data.array == \"?\"] = MaskValue.MISSING\n", "", "R1.mask-tokens"),
+    # the terminator rule already fires on the unchanged tree (known finding, one obligation):
+    # a break cannot add a finding, the repair twin shows that the rule follows the source
+    Mutant("multiline-refuses-terminator", CIF,
+           "    return \"\\n;\" + value + \"\\n;\\n\"",
+           "    if \"\\n;\" in value:\n        raise ValueError(\"line starting with ';' in a text field\")\n    return \"\\n;\" + value + \"\\n;\\n\"",
+           "R1.text-field-terminator", "_multiline", kind="repair"),
+    Mutant("file-scanner-strips-lines", CIF,
+           "        lines = text.splitlines()\n        block_starts = []",
+           "        lines = [line.strip() for line in text.splitlines()]\n        block_starts = []",
+           "R1.text-field-verbatim", "CIFFile.deserialize"),
+    Mutant("hierarchical-delitem-removed", COMP,
+           "    def __delitem__(self, key):\n        del self._elements[key]\n\n", "", "R2.dunder-defined"),
+    Mutant("cifblock-len-removed", CIF,
+           "    def __len__(self):\n        return len(self._categories)\n", "", "R2.dunder-defined", "CIFBlock.__len__"),
+    Mutant("bcifblock-setitem-element-dropped", BCIF,
+           "            return super().__setitem__(\"_\" + key, element)", "            return super().__setitem__(\"_\" + key)",
+           "R2.super-arity"),
+    Mutant("bcifblock-iter-prefix-kept", BCIF,
+           "        return (key.removeprefix(\"_\") for key in super().__iter__())", "        return (key for key in super().__iter__())",
+           "R3.prefix-undone-exactly", "BinaryCIFBlock.__iter__"),
+    Mutant("bcifblock-deserialize-prefix-kept", BCIF,
+           "                name.removeprefix(\"_\"): category\n", "                name: category\n",
+           "R3.prefix-undone-exactly", "BinaryCIFBlock.deserialize"),
 ]
